@@ -421,3 +421,74 @@ entry("C17", modules=["contracts.c17_select"],
                   "the documented order for all (complex) spectrum entries; eigs_numpy returns exactly min(k,n) entries, "
                   "the k best by the rule, each value paired with its own vector (same re-indexing), ascending if sort, "
                   "vectors mapped out of the subspace iff P is given.")
+
+
+_C05 = "quimb/tensor/decomp.py"
+entry("C05", modules=["contracts.c05_decomp"],
+      E1=[f"{_C05}::_compute_number_svals_to_keep_numba", f"{_C05}::_compute_svals_renorm_factor_numba",
+          f"{_C05}::_trim_and_renorm_svd_result_numba", f"{_C05}::_trim_and_renorm_svd_result",
+          f"{_C05}::_do_absorb", f"{_C05}::_do_absorb_numba"],
+      LEMMAS=True,
+      PROVIDERS=["contracts.c05_decomp.provider"],
+      TRUSTED=["leaf np.sum / xp.sum: the sum of the elementwise powers over the index range of the (sliced) array, i.e. "
+               "presum(A,p,k) = sum_{i<k} A_i^p for a prefix, tailsum(A,p,n,k) = sum_{k<=i<n} A_i^p for a suffix",
+               "leaf np.sum(mask) / xp.count_nonzero(mask): the number of True entries (count_gt, count_cumlt defined "
+               "recursively); its boundary reading on a monotone mask is the proved lemma count-boundary",
+               "leaf xp.cumsum: entry k is presum(A,p,k+1); the last entry the total",
+               "leaf np.abs / xp.abs elementwise; np.sqrt of a real: the non-negative root (rsqrt(x)^2 = x, rsqrt(x) >= 0 "
+               "for x >= 0); x**(1/2) is that root; x**p for a symbolic exponent is the uninterpreted pw(x,p) with "
+               "pw(x,p) >= 0 (> 0) for x >= 0 (> 0) and (x^(1/p))^p = x for x >= 0, p > 0",
+               "leaf np.isnan: False (reals); np.ascontiguousarray: identity; broadcasting of a one-element array "
+               "(`sabs[..., 0:1]`, `csp[..., -1:]`) as a scalar",
+               "leaf rdmul(x,d) = x.diag(d), ldmul(d,x) = diag(d).x; uninterpreted matrix algebra: the product is "
+               "associative (ground instances), diag(sqrt s).diag(sqrt s) = diag(s); U[..., :, :k] / VH[..., :k, :] are "
+               "uninterpreted functions colslice(U,k) / rowslice(VH,k) with colslice(U, len(s)) = U, rowslice(VH, len(s)) = VH",
+               "leaf parse_info_extras(info, ('error',)): the returned dict has the key 'error' iff the caller asked for the "
+               "truncation error; get_namespace / infer_backend: plain numpy-like namespace (no tensorflow dtype cast)",
+               "_do_absorb / _do_absorb_numba used as callees by the trim functions: pure functions of their four arguments "
+               "(the table itself is proved separately for every code)",
+               "induction principle over the naturals for the lemma pairs (base, step): split-sum, tail-monotone, "
+               "presum-monotone, count-boundary",
+               "fdx isometry: numpy matrix products / norms on fixed seeded full-rank inputs (tolerance 1e-8, 1e-6 for the "
+               "Gram based / randomised / iterative drivers)"],
+      ASSUMPTIONS=["spectrum s: length >= 1, non-negative and sorted descending (|s| when use_abs), no NaN (floats are reals); "
+                   "s_0 > 0 when renorm > 0 (a zero matrix with renorm > 0 divides by zero: ZeroDivisionError in the "
+                   "accelerated path -- outside the property's domain, stated as pre-condition)",
+                   "max_bond = -1 or >= 1; cutoff any real (negative / zero cutoffs are what the trim functions pass when "
+                   "only renorm > 0 requests the dynamic branch: then nothing is discarded for a negative target)",
+                   "cutoff_mode in the six codes of the source; renorm in {0, 1, 2} concretely and any integer p >= 3 "
+                   "symbolically (pw uninterpreted); non-integer renorm in (0,2) is outside the documented domain",
+                   "1-d spectrum (2-d input matrix): batched input of the generic function (batch_dims non-empty, xp.max "
+                   "over the batch) is covered by the bounded drivers only",
+                   "ties are left open exactly as DESIGN C05: sum modes are proved as tail(n) <= target (or n = len(s) and "
+                   "target < 0) and n > 1 => tail(n-1) >= target; `<`/`<=` variants of the comparison of the discarded "
+                   "weight with the target are therefore both accepted; abs / rel are proved as the exact count "
+                   "max(1, #{s > thr}) (DESIGN B.4)",
+                   "relational obligation generic == accelerated: both functions are proved against ONE functional "
+                   "specification (TrimBase.trim_post: kept number, renormalisation factor, error, factors); lemmas "
+                   "relational-*: that specification determines the kept number up to ties and the factor uniquely",
+                   "fdx domain: method spellings = registered drivers + 'auto', 'eig', 'lq', 'lq:cholesky'; absorb spellings = "
+                   "all keys of _ABSORB_MAP + 'auto'; truncation settings (max_bond, cutoff) in {(None,0.0), (None,1e-10), "
+                   "(4,0.0), (4,1e-10), (None,None)}, all cutoff_mode spellings, renorm in {None,0,1,2,3,True,False}",
+                   "fdx isometry obligations enumerate the (method, absorb) table exhaustively; the factor itself is "
+                   "measured on 6 fixed seeded matrices per driver (tall, wide, square x float64, complex128; Hermitian "
+                   "positive definite for eigh / eigsh / cholesky; iterative drivers with max_bond = 2): that part is a "
+                   "sample, not a decision"],
+      BOUNDED_FOR={"_trim_and_renorm_svd_result": ["kept singular values", "agree", "info['error']"],
+                   "_trim_and_renorm_svd_result_numba": ["kept singular values", "agree", "info['error']"],
+                   "_compute_number_svals_to_keep_numba": ["kept rank", "least"],
+                   "_compute_svals_renorm_factor_numba": ["kept singular values"],
+                   "_do_absorb": ["requested form"], "_do_absorb_numba": ["requested form"]},
+      EXPLANATION="E1 over the reals, VCs from the current source of 6 functions of decomp.py + 15 lemmas: "
+                  "_compute_number_svals_to_keep_numba (6 cutoff modes; loop invariant on the tail sum; result = least k >= 1 "
+                  "satisfying the rule, ties open), _compute_svals_renorm_factor_numba (f^p * sum_{i<n} s^p = sum s^p for "
+                  "p = 1, 2, symbolic p >= 3), _trim_and_renorm_svd_result_numba and the generic _trim_and_renorm_svd_result "
+                  "against one functional spec (1 <= n <= len(s), n <= max_bond, n = min(rule, cap), kept values = f*s[:n], "
+                  "error = sqrt(sum_{i>=n} s_i^2), factors = absorb-form of (U[:, :n], f*s[:n], VH[:n])), _do_absorb / "
+                  "_do_absorb_numba (11-code table, product = U diag(s) VH, isometric factors unscaled). On the unchanged tree "
+                  "the generic function fails `renorm-factor` for every (cutoff mode, renorm) with renorm != power of the "
+                  "mode and raises UnboundLocalError for abs / rel with renorm > 0 (finding 6a). fdx: parse_method_absorb / "
+                  "parse_split_opts total on the whole method x absorb x truncation table (2.3e5 executions), memo-key "
+                  "soundness per parameter of the three cached parsers (fails for renorm: finding 6b), isometry flags per "
+                  "(method, absorb) against the real drivers (fail for polar_right / polar_left / cholesky: finding 10), "
+                  "consistency of _RETURNS_*_ABSORBS and _ABSORB_TRANSPOSE_MAP with _do_absorb.")
